@@ -222,7 +222,7 @@ func (w *World) projectOne() map[string]interface{} {
 	out["mem"] = w.projectMem()
 	origOk, _ := w.UserOwnedEqual()
 	rs := append([]int{}, w.Ghost.ReadySteps...)
-	out["ghost"] = map[string]interface{}{"readySteps": rs, "created": w.Ghost.Created, "origOk": origOk, "brEver": w.Ghost.BrEver, "jumpBack": w.Ghost.JumpBack, "lateChange": w.Ghost.LateChange, "disSup": w.Ghost.DisSup}
+	out["ghost"] = map[string]interface{}{"readySteps": rs, "created": w.Ghost.Created, "origOk": origOk, "brEver": w.Ghost.BrEver, "jumpBack": w.Ghost.JumpBack, "lateChange": w.Ghost.LateChange, "disSup": w.Ghost.DisSup, "readyRepl": w.Ghost.ReadyRepl}
 	out["quiet"] = w.WL.Quiescent(w) && !w.gcPending()
 	// wake-up state of the two work queues; stuck: nothing will ever run again without a user action
 	stuck := !w.Q.RoPending && !w.Q.BrPending && !w.Q.RoTimer && !w.Q.BrTimer && w.WL.Quiescent(w) && !w.gcPending() && !w.tickUseful()
@@ -320,6 +320,7 @@ func (w *World) projectNet() map[string]interface{} {
 	m["provIngress"] = w.ingressClass() != ""
 	m["provGateway"] = w.hasProvider("gateway")
 	m["noCanarySvc"] = w.Cfg.NoCanarySvc
+	m["grace0"] = w.Cfg.Grace0 // trafficRoutings[].gracePeriodSeconds = 0
 	svc := &corev1.Service{}
 	if w.S.Load(w.NS, SvcName, svc) {
 		m["hasSvc"] = true
